@@ -859,6 +859,10 @@ class Frame:
                 if 0 <= ix < len(bv.items):
                     return Place(bv, ix)
                 raise PanicEx("index out of bounds")
+            if isinstance(bv, (bytes, bytearray)) and isinstance(ix, int) and not isinstance(ix, bool):
+                if 0 <= ix < len(bv):
+                    return Place(Cell(bv[ix]))
+                raise PanicEx("index out of bounds")
             return Place(Cell(self.I.top("index of %r[%r] at %s" % (bv, ix, self.where(e)))))
         return Place(Cell(self.eval(eid)))
 
